@@ -1235,7 +1235,7 @@ func (e *n09Env) waitCaughtUp(f int, target [16]byte) string {
 	var last string
 	var holeSince time.Time
 	var holeConnects uint64
-	polls := 0
+	polls, stuck := 0, 0
 	for {
 		sl := s.node.inst.slock
 		cc := sl.replicationManager.clientChannel
@@ -1252,6 +1252,31 @@ func (e *n09Env) waitCaughtUp(f int, target [16]byte) string {
 			last = fmt.Sprintf("follower %d has no replication client", f)
 		}
 		polls++
+		if polls%250 == 0 && cc != nil && time.Since(deadline.Add(-n09Watchdog)) > 3*time.Second {
+			// not slow but stuck: the leader's cursor for this follower stands at the end of the ring (nothing left to
+			// send), the follower's pipelines are drained, and yet the follower's position is not the leader's
+			mgr := e.leader.inst.slock.replicationManager
+			mgr.glock.Lock()
+			chans := append([]*ReplicationServer{}, mgr.serverChannels...)
+			mgr.glock.Unlock()
+			st := cc.state
+			if len(chans) > 0 && st.replayCount == st.recvCount && st.appendCount == st.recvCount && cc.currentAofId != target {
+				atEnd := true
+				for _, ch := range chans {
+					if ch.bufferCursor.seq+1 != mgr.bufferQueue.seq || !ch.bufferCursor.writed {
+						atEnd = false
+					}
+				}
+				if atEnd {
+					stuck++
+					if stuck >= 3 {
+						return "GAP: " + last + "; every replication cursor of the leader stands at the end of its ring and has nothing left to send" + "\n" + e.dumpFiles(f)
+					}
+				} else {
+					stuck = 0
+				}
+			}
+		}
 		if polls%50 == 0 {
 			s.proxy.mu.Lock()
 			skipped := s.proxy.skipAhead > 0
@@ -1734,6 +1759,9 @@ func (e *n09Env) syncAndCheck(final bool) (key, violation, inconclusive string) 
 	}
 	for _, i := range active {
 		if why := e.waitCaughtUp(i, target); why != "" {
+			if strings.HasPrefix(why, "GAP: ") {
+				return "C09:live-stream-gap", fmt.Sprintf("follower %d will never converge: %s", i, why[5:]), ""
+			}
 			if strings.HasPrefix(why, "SKIPPED: ") {
 				return n09KeySkipAhead, fmt.Sprintf("follower %d resumed at the bound of a full transfer that had delivered nothing and does not reach the leader's position: %s", i, why[9:]), ""
 			}
